@@ -759,7 +759,7 @@ class TypesCodeGenerator:
         self,
         type_def: model.LSP_TYPE_SPEC,
         class_name: str,
-        structures: List[model.Structure],
+        lsp_model: model.LSPModel,
     ) -> Tuple[List[str], List[str]]:
         if type_def.kind != "and":
             raise ValueError("Only `and` type code generation is supported.")
@@ -773,9 +773,16 @@ class TypesCodeGenerator:
         properties = []
         for item in type_def.items:
             if item.kind == "reference":
-                for structure in structures:
+                for structure in lsp_model.structures:
                     if structure.name == item.name:
-                        properties += copy.deepcopy(structure.properties)
+                        # As for a structure: its own properties, then the ones
+                        # it gets from `extends` and `mixins`.
+                        for d in [structure] + self._get_dependent_types(
+                            structure, lsp_model
+                        ):
+                            for p in d.properties:
+                                if p.name not in [prop.name for prop in properties]:
+                                    properties.append(copy.deepcopy(p))
             else:
                 raise ValueError(
                     "Only `reference` types are supported for `and` type generation."
@@ -831,7 +838,7 @@ class TypesCodeGenerator:
                     )
 
         for name, type_def in and_types:
-            self._add_and_type(type_def, name, lsp_model.structures)
+            self._add_and_type(type_def, name, lsp_model)
 
     def _add_requests(self, lsp_mode: model.LSPModel) -> None:
         indent = " " * 4
